@@ -111,6 +111,13 @@ def run_path(src, reg, contract, fnode, fglobs, case_builder, prefix, opts):
     status = 'ok'
     try:
         params = case_builder(ip)
+        gl = contract.cls.__dict__.get('globals')
+        if gl:
+            mk = Mk(ip)
+            ctx.ghost['globals'] = {n: mk.of(d, n) for n, d in gl.items()}
+            params = dict(params)
+            for n, v in ctx.ghost['globals'].items():
+                params['G' + n] = v        # visible to requires / ensures as G<name>
         for label, cond in all_clauses(ip, contract, 'requires', params):
             ctx.assume(cond)
         ctx.ghost['requires_done'] = len(ctx.pc)
@@ -130,10 +137,10 @@ def run_path(src, reg, contract, fnode, fglobs, case_builder, prefix, opts):
         old = Old(snapshot(dict(params)))
         ctx.ghost['old'] = old
         body = AstFunc(fnode, fglobs, None, key=None, name=key)
-        names = list(params.keys())
         outcome = None
+        bparams = {n: v for n, v in params.items() if not (gl and n[1:] in gl and n.startswith('G'))}
         try:
-            res = _call_body(ip, body, key, params)
+            res = _call_body(ip, body, key, bparams)
             outcome = ('return', res)
         except PyRaise as r:
             outcome = ('raise', r.cls, r)
@@ -283,7 +290,9 @@ def solve_obligation(ob, timeout_ms, use_cvc5=True):
         try:
             m = s.model()
             res['model'] = {str(d): str(m[d])[:200] for d in m.decls() if '!' not in d.name()}
-        except z3.Z3Exception:
+            from .replay import concretize
+            res['inputs'] = concretize(m)
+        except Exception:  # noqa: BLE001
             pass
     elif use_cvc5:
         c = cvc5_check(s, timeout_ms)
@@ -321,7 +330,9 @@ class IncSolver:
             try:
                 m = self.s.model()
                 res['model'] = {str(d): str(m[d])[:200] for d in m.decls() if '!' not in d.name()}
-            except z3.Z3Exception:
+                from .replay import concretize
+                res['inputs'] = concretize(m)
+            except Exception:  # noqa: BLE001
                 pass
             self.s.pop()
             res['time_s'] = round(time.time() - t0, 3)
